@@ -120,7 +120,7 @@ func w8MsgLenBeforeRead(p *model.Prog, r *report.Result, rule string) {
 			r.Check(!unknown && K-skipped >= need[o.Name()], rule, fkey(fn, "msg-read", o.Name()), p.InstrPos(ci), fmt.Sprintf("Len() >= %d, %d skipped, %d read", K, skipped, need[o.Name()]), fmt.Sprintf("the length test in front of this read guarantees %d bytes, %d of them are skipped before the read (or an amount the test does not cover), and the read takes %d: a message cut inside the field indexes past the buffer and the session goroutine panics", K, skipped, need[o.Name()]))
 		}
 	}
-	if n < 6 {
+	if n < 4 { // the client-side control messages alone; the aggregate sub-header may be parsed another way
 		r.Bad(rule, "floor", "", fmt.Sprintf("only %d bele reads of message buffers found in pkg/rtmp", n))
 	}
 }
@@ -180,7 +180,7 @@ func w8NotifySessionId(p *model.Prog, r *report.Result, rule string) {
 			r.Check(good, rule, fkey(fn, "notify", "session-id-of-the-session"), p.InstrPos(st), "SessionId = session.UniqueKey()", "the SessionId of the notification is not the unique key of the session this function was called for (the group's key, another object's): the stop event does not match the start event, and the id the API returned names nothing")
 		})
 	}
-	if n < 5 {
+	if n < 2 { // the pull / connect callbacks; twins that merge the four pull callbacks into two helpers still have these
 		r.Bad(rule, "floor", "", fmt.Sprintf("only %d SessionId stores found in session callbacks of pkg/logic", n))
 	}
 }
@@ -199,7 +199,11 @@ func w8JumpOnlyWhenFull(p *model.Prog, r *report.Result, rule string) {
 		})
 		r.Check(ok, rule, fkey(fn, "jump", "behind-Full()"), p.InstrPos(ci), "out-of-turn unpack only when the list is full", "tryUnpackOne() is called where the list need not be full: a packet that arrives ahead of a missing predecessor is delivered at once and the late one is then dropped as stale - a frame is lost under reordering well inside the window")
 	}
-	r.Check(len(model.CallsTo(fn, seq)) >= 1, rule, fkey(fn, "jump", "sequential-drain"), p.Pos(fn.Pos()), "in-order drain present", "Feed no longer drains the list through tryUnpackOneSequential()")
+	nSeq := 0
+	for _, g := range model.StaticGroup(fn, 1) {
+		nSeq += len(model.CallsTo(g, seq))
+	}
+	r.Check(nSeq >= 1, rule, fkey(fn, "jump", "sequential-drain"), p.Pos(fn.Pos()), "in-order drain present", "Feed no longer drains the list through tryUnpackOneSequential()")
 }
 
 // w8BitWriterMask: a field written with n bits is not masked narrower than n.
